@@ -384,40 +384,44 @@ def sortSmall (sortFn : SortFn) (less : Bytes → Bytes → Bool) (b : Buf) (sta
         else .error .assertFail
       else .error .bounds
 
-/-- The loop of `sortHelper.merge`; yields the bytes stored from `start` on.
-`left` is the copy in `tmp`, `right` is read from the buffer: the write cursor never
-overtakes the unread part of `right` (start + |left| = position of `right`), which is
-why reading `right` from the state before the merge is faithful. -/
-def mergeLoop (less : Bytes → Bytes → Bool) (end_ : Nat) : Nat → Nat → Bytes → Bytes → Except Fault Bytes
-  | 0, _, _, _ => .error .fuel
-  | fuel + 1, start, left, right =>
-    if !mergeLoopCond (w start) (w end_) then .ok []
-    else if left.length == 0 then
-      -- `assert(len(right) == copy(s.b.buf[start:end], right))`
-      if right.length ≤ end_ - start then .ok right else .error .assertFail
-    else if right.length == 0 then
-      if left.length ≤ end_ - start then .ok left else .error .assertFail
+/-- The loop of `sortHelper.merge`, *in place* as the code runs it.  `d` is the whole
+buffer, `left` the copy of the left run in `tmp`, the right run is the slice header
+`d[rpos:end_]` (read from the current buffer on every iteration), `start` the write
+cursor.  `copy` has memmove semantics: the source is read before the destination is
+written.  (That no write reaches the unread part of the right run is a theorem:
+`RV.Buffer.mergeInPlace_eq`.) -/
+def mergeInPlace (less : Bytes → Bytes → Bool) (end_ : Nat) : Nat → Bytes → Nat → Bytes → Nat → Except Fault Bytes
+  | 0, _, _, _, _ => .error .fuel
+  | fuel + 1, d, start, left, rpos =>
+    if !mergeLoopCond (w start) (w end_) then .ok d
     else
-      match rawSlice left, rawSlice right with
-      | .ok ls, .ok rs =>
-        if less (ls.drop 8) (rs.drop 8) then
-          match mergeLoop less end_ fuel (start + ls.length) (left.drop ls.length) right with
-          | .error f => .error f
-          | .ok out => .ok (ls ++ out)
-        else
-          match mergeLoop less end_ fuel (start + rs.length) left (right.drop rs.length) with
-          | .error f => .error f
-          | .ok out => .ok (rs ++ out)
-      | .error f, _ => .error f
-      | _, .error f => .error f
+      let right := region d rpos end_
+      if left.length == 0 then
+        -- `assert(len(right) == copy(s.b.buf[start:end], right))`
+        if right.length ≤ end_ - start then .ok (overwrite d start right) else .error .assertFail
+      else if right.length == 0 then
+        if left.length ≤ end_ - start then .ok (overwrite d start left) else .error .assertFail
+      else
+        match rawSlice left, rawSlice right with
+        | .ok ls, .ok rs =>
+          if less (ls.drop 8) (rs.drop 8) then
+            -- copyLeft
+            mergeInPlace less end_ fuel (overwrite d start ls) (start + ls.length) (left.drop ls.length) rpos
+          else
+            -- copyRight
+            mergeInPlace less end_ fuel (overwrite d start rs) (start + rs.length) left (rpos + rs.length)
+        | .error f, _ => .error f
+        | _, .error f => .error f
 
-/-- `sortHelper.merge(left, right, start, end)` on the buffer contents `d`. -/
-def merge (less : Bytes → Bytes → Bool) (d left right : Bytes) (start end_ : Nat) : Except Fault Bytes :=
+/-- `sortHelper.merge(left, right, start, end)` where `left = d[loff:moff]` and
+`right = d[moff:hoff]` (slice headers into the buffer), `start = loff`, `end = hoff`. -/
+def merge (less : Bytes → Bytes → Bool) (d : Bytes) (loff moff hoff : Nat) : Except Fault Bytes :=
+  let left := region d loff moff
+  let right := region d moff hoff
   if left.length == 0 || right.length == 0 then .ok d
   else
-    match mergeLoop less end_ (left.length + right.length + 1) start left right with
-    | .error f => .error f
-    | .ok out => if start + out.length ≤ d.length then .ok (overwrite d start out) else .error .bounds
+    -- `s.tmp.Write(left); left = s.tmp.Bytes()`
+    mergeInPlace less hoff (left.length + right.length + 1) d loff left moff
 
 /-- `sortHelper.sort(lo, hi)` on the buffer contents `d`; returns the new contents. -/
 def sortRec (less : Bytes → Bytes → Bool) (offsets : List Nat) : Nat → Bytes → Nat → Nat → Except Fault Bytes
@@ -439,9 +443,8 @@ def sortRec (less : Bytes → Bytes → Bool) (offsets : List Nat) : Nat → Byt
               match offsets[mid]? with
               | none => .error .bounds
               | some moff =>
-                -- `left`/`right` are slice headers into the buffer: read now
-                if loff ≤ moff ∧ moff ≤ hoff ∧ hoff ≤ d2.length then
-                  merge less d2 (region d2 loff moff) (region d2 moff hoff) loff hoff
+                -- `left`/`right` are slice headers `b.buf[loff:moff]`, `b.buf[moff:hoff]`
+                if loff ≤ moff ∧ moff ≤ hoff ∧ hoff ≤ d2.length then merge less d2 loff moff hoff
                 else .error .bounds
       | _, _ => .error .bounds
 
